@@ -7,6 +7,7 @@ import (
 	"math/rand"
 	"regexp"
 	"strings"
+	"sync"
 	"time"
 
 	jbytes "github.com/jsightapi/jsight-schema-core/bytes"
@@ -29,14 +30,57 @@ type numCase struct {
 	B    string `json:"b,omitempty"`
 }
 
+// newNumber parses s the way a caller who cuts numbers out of a larger text does: the bytes handed over are a window
+// into a buffer that goes on (other numbers follow). The text is the caller's: nothing of the buffer may change,
+// now or during the later calls on the number (numBuffersIntact).
 func newNumber(s string) (n *jnum.Number, err error, panicked string) {
 	defer func() {
 		if r := recover(); r != nil {
 			panicked = fmt.Sprint(r)
 		}
 	}()
-	n, err = jnum.NewNumber(jbytes.NewBytes(s))
+	const before, after = "[15, ", ", 15, 30, 45] and the text goes on ............................................."
+	buf := []byte(before + s + after)
+	n, err = jnum.NewNumber(jbytes.NewBytes(buf[len(before) : len(before)+len(s)]))
+	if string(buf) != before+s+after {
+		panicked = fmt.Sprintf("NewNumber wrote into the caller's buffer: %.80q became %.80q", before+s+after, buf)
+		return
+	}
+	if n != nil {
+		numBufMu.Lock()
+		if len(numBufs) > 4096 {
+			numBufs = map[*jnum.Number][2]string{}
+		}
+		numBufs[n] = [2]string{before + s + after, ""}
+		numBufLive[n] = buf
+		numBufMu.Unlock()
+	}
 	return
+}
+
+var (
+	numBufMu   sync.Mutex
+	numBufs    = map[*jnum.Number][2]string{}
+	numBufLive = map[*jnum.Number][]byte{}
+)
+
+// numBuffersIntact: the buffers the numbers were cut from still read as they were written.
+func numBuffersIntact(ns ...*jnum.Number) string {
+	numBufMu.Lock()
+	defer numBufMu.Unlock()
+	for _, n := range ns {
+		if n == nil {
+			continue
+		}
+		want, ok := numBufs[n]
+		buf := numBufLive[n]
+		delete(numBufs, n)
+		delete(numBufLive, n)
+		if ok && buf != nil && string(buf) != want[0] {
+			return fmt.Sprintf("a call on the number wrote into the caller's buffer: %.80q became %.80q", want[0], buf)
+		}
+	}
+	return ""
 }
 
 func numShape(s string) string {
@@ -186,6 +230,9 @@ func numLine(t string) ([]byte, string) {
 		ev["str"] = chars(s)
 		ev["frac"] = int(f)
 	}
+	if w := numBuffersIntact(n); w != "" {
+		return nil, w
+	}
 	b, _ := json.Marshal(ev)
 	return b, ""
 }
@@ -216,6 +263,9 @@ func cmpLine(a, b string) ([]byte, string) {
 	}()
 	if p != "" {
 		return nil, p
+	}
+	if w := numBuffersIntact(x, y); w != "" {
+		return nil, w
 	}
 	out, _ := json.Marshal(ev)
 	return out, ""
